@@ -47,6 +47,28 @@ class PolyField:
             monos.append(term)
         return C @ jnp.stack(monos)
 
+    def jax_eval_static(self, C, jet, t):
+        """Same as jax_eval for a *concrete* coefficient matrix: only non-zero terms are built
+        (keeps tracing through jax.experimental.jet cheap)."""
+        import jax.numpy as jnp
+
+        C = np.asarray(C, float)
+        z = [jet[k][i] for k in range(self.order) for i in range(self.d)]
+        if self.with_time:
+            z.append(t)
+        out = [jnp.zeros(()) * z[0] for _ in range(self.d)]
+        for m, a in enumerate(self.alpha):
+            rows = np.nonzero(C[:, m])[0]
+            if len(rows) == 0:
+                continue
+            term = None
+            for j, e in enumerate(a):
+                if e > 0:
+                    term = z[j] ** int(e) if term is None else term * z[j] ** int(e)
+            for i in rows:
+                out[i] = out[i] + (C[i, m] if term is None else C[i, m] * term)
+        return jnp.stack(out)
+
     # ---- NumPy ---------------------------------------------------------------------
     def _z(self, jet, t):
         z = [jet[k][i] for k in range(self.order) for i in range(self.d)]
